@@ -43,6 +43,10 @@ type c16Set struct {
 	Decls []string `json:"decls,omitempty"`
 	Obs   string   `json:"obs,omitempty"`
 	Class string   `json:"class,omitempty"` // what the hand-written set is about (part of the signature of a disagreement)
+	// generated Decls-sets (c16_spec.go): go/types must accept them (otherwise the generator is wrong), and the
+	// chunk-level dependencies are known by construction (ChunkDeps[i] = chunks that chunk i refers to)
+	MustBeValid bool    `json:"must_be_valid,omitempty"`
+	ChunkDeps   [][]int `json:"chunk_deps,omitempty"`
 }
 
 func c16Name(i int, kind byte, sfx string) string {
